@@ -114,7 +114,10 @@ func (h *Handler) modifyResponse(r *http.Response) error {
 	case "":
 		log.Debug("No content encoding header found")
 	default:
+		// The body cannot be decoded, so it must not be parsed or rewritten:
+		// pass the response through untouched.
 		h.log.Warn(unsupportedContentEncoding, slog.String("encoding", r.Header.Get("Content-Encoding")))
+		return nil
 	}
 
 	// Read the encoded body.
